@@ -273,6 +273,42 @@ func cmdCheck(args []string) int {
 				structural = append(structural, r)
 			}
 		}
+		// a precondition about held locks is only worth something if every caller is checked
+		// against it: each caller must itself be a function under contract for this property
+		if inProp && !ct.Assumed && *prop == "C19" {
+			lockReq := false
+			for _, rc := range ct.Requires {
+				if strings.Contains(rc.Text, "holds(") || strings.Contains(rc.Text, "holds_w(") {
+					lockReq = true
+				}
+			}
+			if f := prog.funcs[k]; lockReq && f != nil {
+				var bad []string
+				for _, ck := range findCallerKeysOpt(prog, f, false) {
+					cct := prog.cs.Funcs[ck]
+					ok := false
+					if cct != nil {
+						for _, p := range cct.Props {
+							if p == *prop {
+								ok = true
+							}
+						}
+					}
+					if !ok {
+						bad = append(bad, trimName(ck))
+					}
+				}
+				o := &Obligation{Name: funcDisplayName(f) + ":structural.lock-precondition-checked-at-every-caller", Kind: "structural", Func: funcDisplayName(f), Where: ct.Where, Expect: "unsat",
+					Text: "every static caller of " + trimName(k) + " (which requires a lock to be held) is a function under contract for this property, so the requirement is checked at its call (calls through an interface are entry points: the requirement is an assumption there)"}
+				r := &oblResult{O: o, Q: "; decided by scanning the SSA of all loaded packages\n"}
+				if len(bad) == 0 {
+					r.Res = SolverResult{Status: "unsat", Solver: "kbv-callgraph-scan"}
+				} else {
+					r.Res = SolverResult{Status: "unknown", Solver: "kbv-callgraph-scan", Output: "callers not under contract: " + strings.Join(bad, ", ")}
+				}
+				structural = append(structural, r)
+			}
+		}
 		if !inProp || !ct.Uncalled {
 			continue
 		}
@@ -679,6 +715,19 @@ func atomicOnlyViolations(prog *Program, ao AtomicOnlyDecl) []string {
 // invocations of a method with f's name on an interface f's receiver implements.
 func findCallers(prog *Program, f *ssa.Function) []string {
 	var out []string
+	for _, k := range findCallerKeys(prog, f) {
+		out = append(out, trimName(k))
+	}
+	return out
+}
+
+func findCallerKeys(prog *Program, f *ssa.Function) []string {
+	return findCallerKeysOpt(prog, f, true)
+}
+
+// withInvoke: also count calls through an interface the receiver type implements
+func findCallerKeysOpt(prog *Program, f *ssa.Function, withInvoke bool) []string {
+	var out []string
 	var recv types.Type
 	if f.Signature.Recv() != nil {
 		recv = f.Signature.Recv().Type()
@@ -709,7 +758,7 @@ func findCallers(prog *Program, f *ssa.Function) []string {
 					continue
 				}
 				if cc.IsInvoke() {
-					if recv != nil && cc.Method.Name() == f.Name() {
+					if withInvoke && recv != nil && cc.Method.Name() == f.Name() {
 						if it, ok := cc.Value.Type().Underlying().(*types.Interface); ok && types.Implements(recv, it) {
 							hit = true
 						}
@@ -725,7 +774,7 @@ func findCallers(prog *Program, f *ssa.Function) []string {
 			}
 		}
 		if hit {
-			out = append(out, trimName(key))
+			out = append(out, key)
 		}
 	}
 	sort.Strings(out)
